@@ -478,6 +478,10 @@ def _ds_client_pump(schd):
         all_d = DELTAS_MAP[ALL_DELTAS]()
         all_d.ParseFromString(raw)
         for field, value in all_d.ListFields():
+            if getattr(value, "reloaded", False) and field.name != "workflow":
+                # the protocol for a reload (what cylc-uiserver's data store does): the whole topic is re-sent as
+                # 'added' elements flagged `reloaded`; the client drops what it held for that topic first
+                TR.ds_client[field.name].clear()
             apply_delta(field.name, value, TR.ds_client)
             if hasattr(value, "checksum") and value.checksum:
                 TR.ds_last_checksums[field.name] = value.checksum
@@ -519,7 +523,7 @@ def _client_cmp(schd):
         for k in set(a) | set(b):
             if k not in a or k not in b or a[k].SerializeToString(deterministic=True) != b[k].SerializeToString(deterministic=True):
                 diff.append(f"{key}:{k}")
-                if not (k in a and k in b and _same_but_dup_edges(a[k], b[k])):
+                if not (k in a and k in b and _same_but_dup_edges(a[k], b[k], srv)):
                     only_dup_edges = False
     if srv[WORKFLOW].SerializeToString(deterministic=True) != TR.ds_client[WORKFLOW].SerializeToString(deterministic=True):
         diff.append("workflow")
@@ -541,19 +545,27 @@ def _client_cmp(schd):
     return {"client_equal": not diff, "client_diff": sorted(diff)[:8], "checksum_ok": ck_ok, "client": cli,
             "client_diff_class": "none" if not diff else ("dup-refs" if only_dup_edges else "other")}
 
-def _same_but_dup_edges(a, b):
-    """Do two elements differ only by repeated entries in their reference lists (`edges`, `jobs`)?
-    (apply_delta merges an 'updated' element with MergeFrom, which appends repeated fields)"""
-    if not hasattr(a, "edges"):
-        return False
+def _same_but_dup_edges(a, b, srv=None):
+    """Do two elements differ only by repeated entries in their reference lists (repeated string fields such as
+    `edges`, `jobs`, `child_tasks`)?  apply_delta merges an 'updated' element with MergeFrom, which appends
+    repeated fields; when the referenced element is pruned later, apply_delta removes one copy only, so the
+    client is left with a reference to an element that exists on neither side - still the same defect."""
+    from google.protobuf.descriptor import FieldDescriptor as FD
     a2, b2 = type(a)(), type(b)()
     a2.CopyFrom(a); b2.CopyFrom(b)
     same = True
-    for f in ("edges", "jobs"):
-        if not hasattr(a2, f):
+    known = set()
+    if srv is not None:
+        for coll in srv.values():
+            if isinstance(coll, dict):
+                known.update(coll)
+    for fd in a2.DESCRIPTOR.fields:
+        if not getattr(fd, "is_repeated", getattr(fd, "label", None) == FD.LABEL_REPEATED) or fd.type != FD.TYPE_STRING:
             continue
-        ea, eb = sorted(set(getattr(a2, f))), sorted(set(getattr(b2, f)))
-        del getattr(a2, f)[:]; del getattr(b2, f)[:]
+        ea, eb = set(getattr(a2, fd.name)), set(getattr(b2, fd.name))
+        if srv is not None:
+            eb = {x for x in eb if x in ea or x in known}      # drop references to elements pruned on both sides
+        del getattr(a2, fd.name)[:]; del getattr(b2, fd.name)[:]
         same = same and ea == eb
     return same and a2.SerializeToString(deterministic=True) == b2.SerializeToString(deterministic=True)
 
